@@ -1000,6 +1000,19 @@ def _r11_10(prog, out):
     handles = {A.ty("Subscription"): (A.ty("SubscriptionName"), A.cell("SubState", "subscriptions")),
                A.ty("Topic"): (A.ty("TopicName"), A.cell("TopicState", "topics"))}
     home = {A.cell("SubState", "subscriptions"), A.cell("TopicState", "topics"), A.cell("TopicActor", "subscriptions")}
+    # a private wrapper type around one of those maps (`struct AttachedSubscriptions { by_name: HashMap<..> }`) is that map
+    home_types = set()
+    for (hadt, hf) in list(home):
+        f0 = prog.facts.adt_field(hadt, hf)
+        ty0 = (f0 or {}).get("ty", "")
+        for _ in range(3):
+            base = ty0.split("<")[0]
+            a0 = prog.facts.adt(base) if base.startswith("crate::") else None
+            if a0 is None:
+                break
+            home_types.add(base)
+            fs = [f for v in a0["variants"] for f in v["fields"]]
+            ty0 = fs[0]["ty"] if len(fs) == 1 else ""
     n = 0
     for path, adt in sorted(prog.facts.adts.items()):
         if path.startswith("crate::pubsub_proto"):
@@ -1036,7 +1049,7 @@ def _r11_10(prog, out):
                     if k != nt and not stringish:
                         continue
                     cell = (path, f["name"])
-                    if cell in home:
+                    if cell in home or path in home_types:
                         continue
                     n += 1
                     key = "second-registry:%s.%s" % (short_ty(path), f["name"])
